@@ -93,8 +93,14 @@ static inline uint64_t vp_ptoi(const void *p) {
 }
 #define VP_PTOI(p) vp_ptoi(p)
 #define VP_ABORT(m) do { __CPROVER_assert(0, m); __CPROVER_assume(0); } while (0)
-extern uint64_t vp_blk_size[1 << VP_OBJECT_BITS];   /* logical size per CBMC object number */
-#define VP_LOGICAL_SIZE(p) (vp_blk_size[__CPROVER_POINTER_OBJECT(p) & ((1 << VP_OBJECT_BITS) - 1)])
+/* logical sizes: a short list of (block start, requested size) filled by vp_heap_alloc.  (A table indexed by CBMC's object number cost a
+ * 256 x 64-bit multiplexer per memory access: measured 2.5 M SAT variables for replace() on 3 bytes, most of them this lookup.) */
+#ifndef VP_MAX_BLOCKS
+#define VP_MAX_BLOCKS 8
+#endif
+extern const void *vp_blk_base[VP_MAX_BLOCKS]; extern uint64_t vp_blk_len[VP_MAX_BLOCKS]; extern int vp_blk_n;
+#define VP_BLK_(k, p) ((k) < vp_blk_n && __CPROVER_same_object((p), vp_blk_base[k])) ? vp_blk_len[k] :
+#define VP_LOGICAL_SIZE(p) (VP_BLK_(0, p) VP_BLK_(1, p) VP_BLK_(2, p) VP_BLK_(3, p) VP_BLK_(4, p) VP_BLK_(5, p) VP_BLK_(6, p) VP_BLK_(7, p) (uint64_t)0)
 #define VP_ACCESS_OK(p, s) (!__CPROVER_DYNAMIC_OBJECT(p) || (VP_POFF(p) >= 0 && (uint64_t)VP_POFF(p) + (uint64_t)(s) <= VP_LOGICAL_SIZE(p)))
 #define VP_ACCESS(p, s) __CPROVER_assert(VP_ACCESS_OK((p), (s)), "memory access stays inside the bounds of its heap block")
 #else
